@@ -11,7 +11,7 @@
    Outcomes are [option] (None = the Go function returns an error).  No Panic outcome is
    modelled because every index/slice expression of the anchored code is guarded by a
    length test that the model carries: keyTypeAndData[0] after count >= 1 (getKey),
-   path[:4] and path[i:i+4] after len%4 == 0 && len/4 >= 2 (readBip32Derivation),
+   path[:4] and path[i:i+4] after len%4 == 0 && len/4 >= 1 (readBip32Derivation),
    binary.LittleEndian.Uint32(value) after len(value) == 4, readTxOut reads through the
    error-returning bufferutil deserializer.  The malformed-input stream of K/S reports any
    panic of the implementation as a disagreement.
@@ -48,8 +48,8 @@ Definition v0_TO_WitnessScript : N := 1.
 Definition v0_TO_Bip32 : N := 2.
 Definition v0_MaxKeyLen : N := 10000.
 Definition v0_MaxValLen : N := 4000000.
-(* utils.go readTxOut: `if len(txout) < 45` *)
-Definition v0_MinTxOutLen : nat := 45.
+(* utils.go readTxOut: `if len(txout) < 44` (33 asset + 9 explicit value + 1 null nonce + 1 empty script) *)
+Definition v0_MinTxOutLen : nat := 44.
 
 (* ---------- values ---------- *)
 Record v0sig := mk_v0sig { sg_pk : bytes; sg_sig : bytes }.                 (* psbt.PartialSig *)
@@ -166,10 +166,10 @@ Definition v0_out_kvs (o : v0out) : list (bytes * bytes) :=
 Definition v0_sep : bytes := [x00].
 Definition v0_ser_section (kvs : list (bytes * bytes)) : bytes := enc_list v0_kv kvs ++ v0_sep.
 
-(* the global section as Pset.serialize writes it: the unsigned transaction only
-   (p.Unknowns is never written) *)
+(* the global section as Pset.serialize writes it: the unsigned transaction, then p.Unknowns
+   as they were read (serializeKVpair on the stored key) *)
 Definition v0_global_kvs (p : v0pset) : list (bytes * bytes) :=
-  [([b8 v0_T_UnsignedTx], ser_full (vp_tx p))].
+  ([b8 v0_T_UnsignedTx], ser_full (vp_tx p)) :: map v0_unk_kv (vp_unk p).
 
 (* Pset.serialize; None = the IsSane guard of PInput.serialize fails *)
 Definition v0_ser (p : v0pset) : option bytes :=
@@ -228,7 +228,8 @@ Definition v0_read_txout (v : bytes) : option txout :=
   | None => None
   end.
 
-(* readBip32Derivation: len%4 == 0 && len/4-1 >= 1, then 4-byte little-endian words *)
+(* readBip32Derivation: len%4 == 0 && len/4-1 >= 0, then 4-byte little-endian words:
+   the master fingerprint followed by a possibly empty path *)
 Fixpoint v0_words (bs : bytes) : option (list N) :=
   match bs with
   | [] => Some []
@@ -238,7 +239,7 @@ Fixpoint v0_words (bs : bytes) : option (list N) :=
   end.
 Definition v0_read_bip32 (v : bytes) : option (N * list N) :=
   match v0_words v with
-  | Some (fp :: p1 :: rest) => Some (fp, p1 :: rest)
+  | Some (fp :: rest) => Some (fp, rest)
   | _ => None
   end.
 
@@ -363,9 +364,11 @@ Fixpoint v0_nodupb {A} (eqb : A -> A -> bool) (l : list A) : bool :=
   match l with [] => true | x :: r => negb (existsb (eqb x) r) && v0_nodupb eqb r end.
 
 Definition v0_wf_nwu (t : tx) : bool := wf_tx t && v0_len_ok v0_MaxValLen (ser_full t).
-(* a witness UTXO the codec can carry; the 45-byte floor of readTxOut is kept apart (v0_wu45) *)
+(* a witness UTXO the codec can carry; the 44-byte floor of readTxOut is kept apart (v0_wufloor):
+   it only bites on an output whose value is the one-byte null value 0x00 with a script shorter
+   than 8 bytes (Proofs: v0_wufloor_nonnull) *)
 Definition v0_wf_wu (o : txout) : bool := wf_out o && v0_len_ok v0_MaxValLen (v0_ser_wu o).
-Definition v0_wu45 (o : txout) : bool := (v0_MinTxOutLen <=? length (v0_ser_wu o))%nat.
+Definition v0_wufloor (o : txout) : bool := (v0_MinTxOutLen <=? length (v0_ser_wu o))%nat.
 
 Definition v0_wf_sig (s : v0sig) : bool :=
   valid_pk (sg_pk s) && valid_sig (sg_sig s) &&
@@ -373,19 +376,23 @@ Definition v0_wf_sig (s : v0sig) : bool :=
 Definition v0_wf_der (d : v0der) : bool :=
   valid_pk (dv_pk d) && (1 + lenN (dv_pk d) <=? v0_MaxKeyLen) &&
   (dv_fp d <? two32) && forallb (fun x => x <? two32) (dv_path d) &&
-  nonempty (dv_path d) && v0_len_ok v0_MaxValLen (v0_ser_bip32 d).
+  v0_len_ok v0_MaxValLen (v0_ser_bip32 d).
 Definition v0_known_in_type (ty : N) : bool := ty <=? v0_T_FinalScriptWitness.
 Definition v0_wf_unk (u : v0unk) : bool :=
   match uk_key u with
   | [] => false
   | tb :: _ => negb (v0_known_in_type (n8 tb))
   end && v0_len_ok v0_MaxKeyLen (uk_key u) && v0_len_ok v0_MaxValLen (uk_val u).
+(* a global unknown pair: any key type (the global loop has no type or duplicate test), but an
+   empty key would be read as the separator *)
+Definition v0_wf_gunk (u : v0unk) : bool :=
+  nonempty (uk_key u) && v0_len_ok v0_MaxKeyLen (uk_key u) && v0_len_ok v0_MaxValLen (uk_val u).
 Definition v0_wf_script (o : option bytes) : bool :=
   match o with Some s => v0_len_ok v0_MaxValLen s | None => true end.
 Definition v0_unk_eqb (a b : v0unk) : bool :=
   bytes_eqb (uk_key a) (uk_key b) && bytes_eqb (uk_val a) (uk_val b).
 
-(* everything about an input except IsSane and the 45-byte floor *)
+(* everything about an input except IsSane and the 44-byte floor *)
 Definition v0_wf_in_core (i : v0in) : bool :=
   match vi_nwu i with Some t => v0_wf_nwu t | None => true end &&
   match vi_wu i with Some o => v0_wf_wu o | None => true end &&
@@ -404,11 +411,11 @@ Definition v0_wf_core (p : v0pset) : bool :=
   (length (vp_ins p) =? length (t_ins (vp_tx p)))%nat &&
   (length (vp_outs p) =? length (t_outs (vp_tx p)))%nat &&
   forallb v0_wf_in_core (vp_ins p) && forallb v0_sane (vp_ins p) &&
-  forallb v0_wf_out (vp_outs p).
-Definition v0_wu45_in (i : v0in) : bool :=
-  match vi_wu i with Some o => v0_wu45 o | None => true end.
-Definition v0_wu45_all (p : v0pset) : bool := forallb v0_wu45_in (vp_ins p).
-Definition v0_wf (p : v0pset) : bool := v0_wf_core p && v0_wu45_all p.
+  forallb v0_wf_out (vp_outs p) && forallb v0_wf_gunk (vp_unk p).
+Definition v0_wufloor_in (i : v0in) : bool :=
+  match vi_wu i with Some o => v0_wufloor o | None => true end.
+Definition v0_wufloor_all (p : v0pset) : bool := forallb v0_wufloor_in (vp_ins p).
+Definition v0_wf (p : v0pset) : bool := v0_wf_core p && v0_wufloor_all p.
 
 End V0.
 
@@ -428,7 +435,7 @@ Definition v0_norm_in (i : v0in) : v0in :=
 Definition v0_norm_out (o : v0out) : v0out :=
   mk_v0out (vo_redeem o) (vo_wscript o) (v0_sort dv_pk (vo_ders o)).
 Definition v0_norm (p : v0pset) : v0pset :=
-  mk_v0pset (norm_tx (vp_tx p)) (map v0_norm_in (vp_ins p)) (map v0_norm_out (vp_outs p)) [].
+  mk_v0pset (norm_tx (vp_tx p)) (map v0_norm_in (vp_ins p)) (map v0_norm_out (vp_outs p)) (vp_unk p).
 
 (* structural conditions under which the hop is the identity *)
 Fixpoint v0_sortedb {A} (key : A -> bytes) (l : list A) : bool :=
@@ -447,5 +454,5 @@ Definition v0_canon_in (i : v0in) : bool :=
         negb (v0_is_some (vi_wscript i)) && negb (nonempty (vi_ders i))
    else v0_sortedb sg_pk (vi_sigs i) && v0_sortedb dv_pk (vi_ders i)).
 Definition v0_canon (p : v0pset) : bool :=
-  v0_flag_canon (vp_tx p) && negb (nonempty (vp_unk p)) &&
+  v0_flag_canon (vp_tx p) &&
   forallb v0_canon_in (vp_ins p) && forallb (fun o => v0_sortedb dv_pk (vo_ders o)) (vp_outs p).
